@@ -205,6 +205,10 @@ def run(rep, tier):
     rep.floor = 50000
 
 
+def san_shards(tier):
+    return [("miri", [("enum", i, 16, 2, "miri") for i in range(16)] + [("config", i, 0, 1, "miri") for i in range(8)])]
+
+
 def replay(path):
     d = json.load(open(path))
     r = d["replay"]
